@@ -24,6 +24,24 @@ CLAIMS = {
         note=TB + "sort/merge/limit operators are covered by the SQL-level oracle only (Lean model of sort_from_blocks/merge pending); Python comparator of tools/sqlutil.py is the SQL oracle.",
         technique="Lean 4 proof (order embedding by induction) + differential correspondence with the real key encoder + SQL sort oracle",
         design="5/C08"),
+    "C12": dict(
+        text=("Lean theorems (Props/C12.lean) about the code-shaped arithmetic model Core/Arith.lean: every native integer operator is exact whenever it yields a value "
+              "and traps exactly when the mathematical result is not representable (all widths, both signednesses); SUM is a homomorphism over any split of the input and a "
+              "finalized SUM is the exact total (induction over lists); decimal +/- result-type bounds; up-scaling is exact. The statement 'overflow is an error' is proved false of "
+              "the model with the witness 127+1 (the code panics/wraps; listed known findings). Tie: exhaustive 8-bit pairs x 5 ops x 2 signednesses over columns, boundary-biased "
+              "16/32/64-bit pairs folded and over columns, decimal (p,s) configurations incl. mixed int/decimal and the 64/128 boundary, round(), SUM over partitions; engine vs model vs exact arithmetic."),
+        note=TB + "Python big-integer arithmetic is the exact-value oracle; float-typed results are outside the modelled fragment; 128-bit integer types have no SQL name and are covered by the theorems only.",
+        technique="Lean 4 proof (exact-or-trap, SUM homomorphism by induction) + differential correspondence engine/model/exact arithmetic",
+        design="5/C12"),
+    "C13": dict(
+        text=("Lean theorems (Props/C13.lean): integer casts are identity-or-none; a decimal rescale never exceeds the target precision; the down-scaling computation is "
+              "round-half-away-from-zero for every value and every power of ten (roundAdj_half_away: nearest multiple, ties away from zero - unbounded, by arithmetic on quotient/remainder); "
+              "boolean text round trip; documented parser facts. Tie: the real Parser/Formatter implementations (dates over 0001..9999 incl. whole years, year boundaries, leap days; integer and "
+              "decimal texts incl. malformed) and SQL casts (int->int exhaustive for 8/16-bit sources, decimal rescales with ties of both signs, int->decimal, f64->int, text round trips) "
+              "against Core/Cast.lean and against exact oracles."),
+        note=TB + "Python datetime/big integers are the oracle for civil dates and exact rounding; chrono's lenient date parsing (whitespace, digit counts) and float<->text are third-party/out of the model.",
+        technique="Lean 4 proof (rounding law, precision bound) + differential correspondence of real parsers/formatters/casts with the model",
+        design="5/C13"),
 }
 
 NOT_YET = {
